@@ -168,7 +168,8 @@ def run(ctx, obl):
                 "shoot.ParseEnum/TryParseEnum/IsEnum are executed on: every declared (trimmed) name, lower/upper/swapped case variants, constant names "
                 "with the type prefix, decimal strings of declared values, empty, blanks, near misses, a \\u-escaped JSON spelling, non-string JSON "
                 "(null, numbers, bools, arrays, objects), non-[]byte SQL values (string, int64, nil, float64, bool, time.Time, the enum itself), with a "
-                "preset non-zero undeclared target; IsEnum[T, int64/uint64] on a window of integers (min-3..max+3, gaps, type min/max) and, as a "
+                "preset non-zero undeclared target; every codec is exercised as a HISTORY in one process: encode and round-trip, overwrite in place every []byte the "
+                "encoders handed out (MarshalJSON, json.Marshal, MarshalText, Value), then encode and round-trip again (`*.enc2`, `*.rt2`: same expectation); IsEnum[T, int64/uint64] on a window of integers (min-3..max+3, gaps, type min/max) and, as a "
                 "separate case, IsEnum[T, TV] for all 10 integer types TV on declared values, the integers that wrap onto them in T, their "
                 "reinterpretations in TV and the corners of both types. non-trivial = distinct (enum, flag set) with at least two constants")
     res.assumptions = ["encoding/json string encode/decode are inverse on ASCII identifiers; a JSON document is classified by Python's json module",
